@@ -2,6 +2,9 @@ package testfs
 
 import (
 	"bytes"
+	"testing/fstest"
+
+	"github.com/foxboron/go-uefi/efivarfs"
 
 	"github.com/foxboron/go-uefi/efi/signature"
 	"github.com/foxboron/go-uefi/efi/util"
@@ -34,11 +37,18 @@ var vGUID = util.EFIGUID{Data1: 0x11223344, Data2: 0x5566, Data3: 0x7788, Data4:
 // variable holding an arbitrary value; one plain write of a value of any size; the read returns
 // exactly the value written and the other variable is unchanged.
 func VC12_PlainRegister() {
-	fs := NewTestFS().Open()
 	a := efivar.Efivar{Name: "VarA", GUID: &vGUID, Attributes: 7}
 	b := efivar.Efivar{Name: "VarB", GUID: &vGUID, Attributes: 7}
 	prev, other, next := vSplit("prev", vsymC12Max), vSplit("other", 8), vSplit("next", vsymC12Max)
-	vsym.Assert(fs.WriteVar(a, vValue(prev)) == nil, "setup write")
+	var fs *efivarfs.Efivarfs
+	if vsym.Pick("prepopulated", 2) == 1 {
+		// the store starts from files handed to With (how the integration tests pre-populate it)
+		path := "/sys/firmware/efi/efivars/VarA-" + vGUID.Format()
+		fs = NewTestFS().With(fstest.MapFS{path: {Data: append([]byte{7, 0, 0, 0}, prev...)}}).Open()
+	} else {
+		fs = NewTestFS().Open()
+		vsym.Assert(fs.WriteVar(a, vValue(prev)) == nil, "setup write")
+	}
 	vsym.Assert(fs.WriteVar(b, vValue(other)) == nil, "setup write")
 	vsym.Tag("shorter-than-previous", len(next) < len(prev))
 	vsym.Assert(fs.WriteVar(a, vValue(next)) == nil, "write succeeds")
